@@ -14,7 +14,7 @@ OBLIGATIONS = []      # filled before the pool is forked
 
 RLIMIT_1 = int(os.environ.get("PYVC_RLIMIT1", "12000000"))
 RLIMIT_2 = int(os.environ.get("PYVC_RLIMIT2", "36000000"))
-WALL_MS = int(os.environ.get("PYVC_WALL_MS", "240000"))
+WALL_MS = int(os.environ.get("PYVC_WALL_MS", "90000"))
 CVC5_S = int(os.environ.get("PYVC_CVC5_S", "30"))
 
 
@@ -48,50 +48,112 @@ def cvc5_check(smt2_text, seconds):
             pass
 
 
+def symbols(e, memo):
+    """names of the uninterpreted constants / functions occurring in a term"""
+    i = e.get_id()
+    if i in memo:
+        return memo[i]
+    out = set()
+    if z3.is_quantifier(e):
+        out |= symbols(e.body(), memo)
+    elif z3.is_app(e):
+        d = e.decl()
+        if d.kind() == z3.Z3_OP_UNINTERPRETED:
+            out.add(d.name())
+        for c in e.children():
+            out |= symbols(c, memo)
+    memo[i] = out
+    return out
+
+
+def _has_quant(e, memo):
+    i = e.get_id()
+    if i not in memo:
+        memo[i] = z3.is_quantifier(e) or any(_has_quant(c, memo) for c in e.children())
+    return memo[i]
+
+
+def hypothesis_levels(pc, goal):
+    """increasing hypothesis sets (dropping hypotheses is sound for `unsat`): quantifier-free only; + quantified hypotheses that share
+    a symbol with the goal; + one more round of sharing; everything"""
+    sm, qm = {}, {}
+    qf = [c for c in pc if not _has_quant(c, qm)]
+    qs = [c for c in pc if _has_quant(c, qm)]
+    if not qs:
+        return [list(pc)]
+    levels = [qf]
+    rel = set(symbols(goal, sm))
+    chosen = []
+    remaining = list(qs)
+    for _ in range(2):
+        add = [c for c in remaining if symbols(c, sm) & rel]
+        if not add:
+            break
+        chosen += add
+        remaining = [c for c in remaining if not any(c is a for a in add)]
+        for c in add:
+            rel |= symbols(c, sm)
+        levels.append(qf + list(chosen))
+        if not remaining:
+            break
+    if remaining:
+        levels.append(list(pc))
+    return levels
+
+
 def solve_one(idx):
     ob = OBLIGATIONS[idx]
     t0 = time.time()
-    q = _query(ob)
     res = {"idx": idx, "name": ob["name"], "kind": ob.get("kind", "check"), "verdict": "unknown", "backend": None, "model": None, "reason": None}
     expect_fail = ob.get("expect") == "fail"     # canaries / cover checks: must NOT be provable
+    neg = z3.Not(ob["goal"])
     try:
-        s = _mk_solver(RLIMIT_1 if not expect_fail else min(RLIMIT_1, 4000000))
-        s.add(*q)
-        r = s.check()
-        if r == z3.unsat:
-            res.update(verdict="proved", backend="z3")
-        elif r == z3.sat:
-            m = s.model()
-            res.update(verdict="failed", backend="z3", model=str(m)[:6000])
-            res["model_obj_idx"] = idx
-        else:
-            res["reason"] = s.reason_unknown()
-            if expect_fail:
-                pass
+        if expect_fail:
+            s = _mk_solver(min(RLIMIT_1, 4000000)); s.add(*ob["pc"]); s.add(neg)
+            r = s.check()
+            res.update(verdict={z3.unsat: "proved", z3.sat: "failed"}.get(r, "unknown"), backend="z3")
+            res["time"] = round(time.time() - t0, 3)
+            return res
+        levels = hypothesis_levels(ob["pc"], ob["goal"])
+        small = max(RLIMIT_1 // 4, 1000000)
+        last = None
+        trail = []
+
+        def attempt(hyps, rlimit, backend, purified=False, seed=None, want_model=False):
+            nonlocal last
+            s = _mk_solver(rlimit, seed)
+            fs = list(hyps) + [neg]
+            s.add(*(purify(fs) if purified else fs))
+            t1 = time.time(); r = s.check(); trail.append((backend, str(r), round(time.time() - t1, 2)))
+            if not purified:
+                last = s
+            if r == z3.unsat:
+                res.update(verdict="proved", backend=backend); return True
+            if r == z3.sat and want_model:
+                res.update(verdict="failed", backend=backend, model=str(s.model())[:6000]); return True
+            if want_model:
+                res["reason"] = s.reason_unknown()
+            return False
+        done = False
+        for li, hyps in enumerate(levels[:-1]):
+            if attempt(hyps, small, f"z3-relevance{li}"):
+                done = True; break
+            if li == 0 and attempt(hyps, small, "z3-purified-qf", purified=True):
+                done = True; break
+        if not done:
+            done = attempt(levels[-1], RLIMIT_1, "z3", want_model=True)
+        if not done:
+            out = cvc5_check(last.to_smt2(), CVC5_S)
+            trail.append(("cvc5", out, None))
+            if out.startswith("unsat"):
+                res.update(verdict="proved", backend="cvc5"); done = True
             else:
-                # 2. purified query
-                s2 = _mk_solver(RLIMIT_1)
-                s2.add(*purify(q))
-                if s2.check() == z3.unsat:
-                    res.update(verdict="proved", backend="z3-purified")
-                else:
-                    # 3. cvc5
-                    out = cvc5_check(s.to_smt2(), CVC5_S)
-                    if out.startswith("unsat"):
-                        res.update(verdict="proved", backend="cvc5")
-                    else:
-                        res["reason"] = (res["reason"] or "") + f"; cvc5: {out}"
-                        # 4. other seeds, larger budget
-                        for seed in (7,):
-                            s3 = _mk_solver(RLIMIT_2, seed)
-                            s3.add(*q)
-                            r3 = s3.check()
-                            if r3 == z3.unsat:
-                                res.update(verdict="proved", backend=f"z3-seed{seed}")
-                                break
-                            if r3 == z3.sat:
-                                res.update(verdict="failed", backend=f"z3-seed{seed}", model=str(s3.model())[:6000])
-                                break
+                res["reason"] = (res["reason"] or "") + f"; cvc5: {out}"
+        if not done:
+            done = attempt(levels[-1], RLIMIT_1, "z3-purified", purified=True)
+        if not done:
+            done = attempt(levels[-1], RLIMIT_2, "z3-seed7", seed=7, want_model=True)
+        res["trail"] = trail
     except Exception as e:      # noqa
         res.update(verdict="error", reason=f"{type(e).__name__}: {e}")
     res["time"] = round(time.time() - t0, 3)
